@@ -735,7 +735,7 @@ type state = { accts : z amap; supply : z; vals : validator amap;
                proposer : bytes option; pkrel : bytes amap; pp : pparams;
                ap : aparams; ma : modaddrs; acl : (bytes * bytes) list;
                dao_owner : bytes; params_raw : bytes amap; height : z;
-               btime : z; haspk : unit amap }
+               btime : z; haspk : bytes amap }
 
 val set_bank : state -> z amap -> z -> state
 
